@@ -37,6 +37,15 @@ CHECKS = {
              'and the printed text is evaluated by an independent Lean reader on sampled valuations.',
         design_ref='DESIGN.md §5 C20',
         note='Names are identifiers (no , ; + * parentheses).'),
+    'C04': dict(
+        technique='Lean 4 proof (rewrite-preserves-complement invariants, box-cover invariant over the cross product) over a hand model of Choices + differential correspondence on accepted sets',
+        text='Theorem generate_exact: for every domain, length and set of well-formed sequences, generate succeeds and its '
+             'object accepts a vector (is_valid, all(), first) iff the vector matches no sequence, and is infinite iff none '
+             'exists; intersection_exact: intersection accepts exactly what both accept. Proved for every iteration order the '
+             'model could take is NOT needed: the theorem is about the accepted SET, which the correspondence compares with '
+             'the real code (accepted set observed three ways on every vector) and with a brute-force complement in Lean.',
+        design_ref='DESIGN.md §5 C04',
+        note='Python iterates hash-ordered sets; the model fixes one order, only order-independent observables are compared.'),
 }
 
 NOT_YET = {}
